@@ -20,8 +20,9 @@ def _ingest_first_pass(ctx, rr, where):
 
 def _isolated(ctx, binary, idx, timeout=600):
     out = os.path.join(ctx.tmp, f"iso-{vf.flavor_of(binary)}-{idx}.jsonl")
+    extra = ["--mode", "reusedfd"] if int(idx) >= 2000000 else []
     rr = vf.run_harness(binary, ["--seed", ctx.seed, "--tmp", ctx.tmp, "--from", idx, "--count", 1, "--isolated", 1,
-                                 "--out", out], timeout=timeout, out_file=out)
+                                 "--out", out] + extra, timeout=timeout, out_file=out)
     cc.annotate(rr, ctx.seed)
     cc.filter_tsan(ctx, rr)
     return rr
@@ -43,6 +44,13 @@ def run(ctx):
             cnt = min(per, n - s)
             jobs.append(lambda b=b, s=s, cnt=cnt: cc.worker(ctx, b, ["--seed", ctx.seed, "--tmp", ctx.tmp], s, cnt,
                                                             3600 if thorough else 1200, "c04"))
+    # reused-descriptor family: 2.5-3.5 s of wall time per batch (it waits for a real SYN retransmit), so a handful
+    # of them run one per process, in parallel with everything else
+    rf = {"plain": 24, "asan": 8, "tsan": 8} if thorough else {"plain": 6, "tsan": 2}
+    for fl in flavors:
+        for k in range(rf.get(fl, 0)):
+            jobs.append(lambda b=bins[(NAME, fl)], k=k: cc.worker(ctx, b, ["--seed", ctx.seed, "--tmp", ctx.tmp, "--mode", "reusedfd"],
+                                                                  2000000 + k, 1, 600, "c04rf"))
     suspects, deaths = {}, []
     for rrs in vf.run_many(ctx, jobs):
         for rr in rrs:
@@ -100,6 +108,8 @@ def run(ctx):
         "the black hole is a loopback listener with backlog 0 plus filler connections (verified per batch: a probe connect stays in SYN_SENT)",
         "'nothing left behind' is judged at the raw peer after the client's command queue was drained through a synchronous addListener barrier",
         "resolver outcomes are scripted through a getaddrinfo interposer (no real DNS in the sandbox)",
+        "the reused-descriptor family relies on Linux dropping SYNs to a listener with a full accept queue and retransmitting after about 1 s; "
+        "that the stale event really reached the new owner of the descriptor is not observable without a hook, only its preconditions are counted",
         "TSan reports without any iora frame in either access stack are counted and dropped",
     ]
     req = ["calls", "batches", "collision_completion_won_at_or_after_expiry", "collision_timeout_won_after_completion",
@@ -110,6 +120,8 @@ def run(ctx):
     req += ["calls_" + s for s in SCN]
     req += ["io_thread_holds_in_slow_onData", "calls_with_short_engine_connect_timer", "engine_connect_timer_closed_a_pending_connect",
             "returned_sessions_checked_for_transport_side_close"]
+    req += ["reused_fd_batches", "reused_fd_schedule_preconditions_met", "reused_fd_abandoned_handshake_completed_late_at_peer",
+            "reused_fd_io_thread_held_in_slow_onData", "reused_fd_blackhole_result_Timeout", "calls_reused-fd-blackhole"]
     req += ["calls_teardown-racing", "teardown_racing_destroyed_with_callers_parked", "teardown_racing_stopped",
             "teardown_racing_returned_ShuttingDown", "teardown_racing_returned_ok",
             "teardown_racing_connects_completed_after_caller_gave_up"]
@@ -127,7 +139,8 @@ def replay(ctx, path):
         raise vf.HarnessFailure("replay file carries no batch index")
     b = vf.build(NAME, fl)
     out = os.path.join(ctx.tmp, "replay.jsonl")
-    rr = vf.run_harness(b, ["--seed", ctx.seed, "--tmp", ctx.tmp, "--from", idx, "--count", 1, "--isolated", 1, "--out", out],
+    extra = ["--mode", "reusedfd"] if int(idx) >= 2000000 else []
+    rr = vf.run_harness(b, ["--seed", ctx.seed, "--tmp", ctx.tmp, "--from", idx, "--count", 1, "--isolated", 1, "--out", out] + extra,
                         timeout=900, out_file=out)
     _ingest_first_pass(ctx, rr, "(replay)")
     ctx.rule = f"replay of batch {idx} ({fl}) seed {ctx.seed}"
